@@ -13,7 +13,8 @@ PROP = dict(
     lean_modules=["Octo.Props.C16"],
     required_theorems=["Octo.C16.trigger_transparent", "Octo.C16.trigger_independent", "Octo.C16.table_is_groupSpec",
                        "Octo.C16.buffer_preserves_net", "Octo.C16.C16_full", "Octo.C16.C16_refuted_raw",
-                       "Octo.C16.aggCount_ok", "Octo.C16.exConf_good"],
+                       "Octo.C16.aggCount_ok", "Octo.C16.exConf_good", "Octo.C16.simple_is_groupSpec", "Octo.C16.custom_eq_simple",
+                       "Octo.C16.validBuffered_of_etByRow", "Octo.C16.C16_event_time_column"],
     nontrivial=_nontrivial,
     rule="ops: `gb <trigger cfg> … :: <stream>` = the real CustomTriggerGroupBy (real trigger objects materialised from "
          "physical.Trigger, real count/sum aggregates, the EventTimeBuffer in front) over a scripted source. Exhaustive part: "
@@ -32,7 +33,7 @@ PROP = dict(
     assumptions=[
         "aggregates satisfy the C14 contract (AggOK: on valid histories the result depends only on the net multiset, up to Compare==0); proved here for count",
         "key/argument expressions are total and respect row equality (column references)",
-        "input is a valid changelog, also in event-time order (ValidInput.validBuffered; automatic when a retraction carries the event time of the row it retracts)",
+        "input is a valid changelog, also in event-time order (ValidInput.validBuffered; proved automatic when the event time is determined by the row: validBuffered_of_etByRow)",
         "event times fit int64 nanoseconds (EtInRange); fewer than 2^64 records per key (uint Count never wraps); int64 sums do not overflow (sum aggregate in the correspondence only)",
         "the trigger configuration contains at least one primitive trigger (TCfg.live; an empty MultiTrigger is not constructible from SQL)",
         "google/btree behaves as an ordered set for a strict weak order Less (Octo.TMap); GroupKey.Less is one by C09, watermarkTriggerKey.Less is one after the fix (wlessFixed_laws) and was not before (wlessRaw_not_laws)",
